@@ -7,6 +7,8 @@ import (
 	"io/ioutil"
 	"os"
 	"path/filepath"
+	"runtime"
+	"runtime/pprof"
 	"sort"
 	"strings"
 	"sync"
@@ -33,9 +35,9 @@ func (r *Rng) Intn(n int) int {
 	}
 	return int(r.U64() % uint64(n))
 }
-func (r *Rng) Bool() bool         { return r.U64()&1 == 1 }
+func (r *Rng) Bool() bool          { return r.U64()&1 == 1 }
 func (r *Rng) Chance(pct int) bool { return r.Intn(100) < pct }
-func (r *Rng) Pick(xs []int) int  { return xs[r.Intn(len(xs))] }
+func (r *Rng) Pick(xs []int) int   { return xs[r.Intn(len(xs))] }
 func (r *Rng) Fork(i uint64) *Rng {
 	return NewRng(r.s ^ (i+1)*0xD1B54A32D192ED03)
 }
@@ -49,14 +51,14 @@ func cBool(b bool) string {
 	}
 	return "false"
 }
-func cN(n uint64) string   { return fmt.Sprintf("%d%%N", n) }
+func cN(n uint64) string { return fmt.Sprintf("%d%%N", n) }
 func cZ(n int64) string {
 	if n < 0 {
 		return fmt.Sprintf("(%d)%%Z", n)
 	}
 	return fmt.Sprintf("%d%%Z", n)
 }
-func cNat(n int) string    { return fmt.Sprintf("%d%%nat", n) }
+func cNat(n int) string { return fmt.Sprintf("%d%%nat", n) }
 func cNs(ns []uint64) string {
 	it := make([]string, len(ns))
 	for i, n := range ns {
@@ -119,7 +121,9 @@ type Suspecter interface{ Suspect(o interface{}) bool }
 
 // Timeouter provides the observation recorded for a case that did not finish within the case
 // timeout (the implementation hung); without it a hanging case aborts the whole run.
-type Timeouter interface{ TimeoutObs(c interface{}) interface{} }
+type Timeouter interface {
+	TimeoutObs(c interface{}) interface{}
+}
 
 const caseTimeout = 90 * time.Second
 
@@ -314,6 +318,27 @@ func runCmd(args []string) int {
 		"shards":              nshards,
 		"shard_size":          *shard,
 		"impl_wall_s":         time.Since(t0).Seconds(),
+	}
+	if os.Getenv("VH_MEM") != "" {
+		for k := 0; k < 4; k++ {
+			time.Sleep(3 * time.Second)
+			runtime.GC()
+			var m0 runtime.MemStats
+			runtime.ReadMemStats(&m0)
+			fmt.Fprintf(os.Stderr, "VH_MEM t=%ds goroutines=%d heap_alloc=%dMB\n", 3*(k+1), runtime.NumGoroutine(), m0.HeapAlloc>>20)
+		}
+		var ms runtime.MemStats
+		runtime.ReadMemStats(&ms)
+		fmt.Fprintf(os.Stderr, "VH_MEM goroutines=%d heap_alloc=%dMB heap_sys=%dMB\n", runtime.NumGoroutine(), ms.HeapAlloc>>20, ms.HeapSys>>20)
+		if os.Getenv("VH_MEM") == "2" {
+			buf := make([]byte, 1<<22)
+			n := runtime.Stack(buf, true)
+			_ = ioutil.WriteFile("/tmp/vh_stacks.txt", buf[:n], 0o644)
+			if f, err := os.Create("/tmp/vh_heap.pprof"); err == nil {
+				_ = pprof.WriteHeapProfile(f)
+				f.Close()
+			}
+		}
 	}
 	sj, _ := json.MarshalIndent(stats, "", " ")
 	_ = ioutil.WriteFile(filepath.Join(*out, "stats.json"), sj, 0o644)
